@@ -290,7 +290,7 @@ def build_model(pid):
 
 
 # ----------------------------------------------------------------------------- running
-MODEL_TIMEOUT = int(os.environ.get("NV_MODEL_TIMEOUT", "1800"))
+MODEL_TIMEOUT = int(os.environ.get("NV_MODEL_TIMEOUT", "10800" if "thorough" in sys.argv else "1800"))
 MODEL_MEM_GB = int(os.environ.get("NV_MODEL_MEM_GB", "6"))
 
 
@@ -315,7 +315,7 @@ def run_model(runner, lines, shards=None, header=None):
 
     def work(k):
         # the model is total and small: a shard that needs more than MODEL_MEM_GB of memory or MODEL_TIMEOUT
-        # seconds has been handed an input it cannot digest (e.g. a state read back from a broken
+        # seconds (30 min in the quick tier, 3 h in the thorough tier) has been handed an input it cannot digest (e.g. a state read back from a broken
         # implementation); it is stopped and its unanswered lines read "runner-died", which every driver
         # treats as a disagreement to be judged by its oracle.  The runner also dies with the driver.
         try:
